@@ -407,7 +407,36 @@ def exhaustive_masks(ctx: Ctx):
     ctx.rec.count("exhaustive_masks_enumerated", idx if ctx.shard == 0 else 0)
 
 
+def sibling_anchors():
+    """Deterministic packages, loaded on every run: two components of one stage, one of which privately defines a name
+    that a component-level variable of the other refers to (leak in either direction, either resolution order)."""
+    out = []
+    for platform in ("default", "P"):
+        for user in ("none", "file"):
+            base = {"nstages": 1, "opts": {"command.arguments": {}}, "plat_none": False, "platform": platform,
+                    "sibling": True, "stage": 0, "user": user}
+            out.append(dict(base, vars={"s0": {"c": "c0-%(s1)s"}, "s1": {"dg": "dg1"}}, sib_vars={"s1": "sibpriv-s1"}))
+            out.append(dict(base, vars={"s0": {"dg": "dg0"}, "s1": {"c": "c1", "dg": "dg1"}},
+                            sib_vars={"s0": "sibpriv-s0-%(s1)s"}))
+            out.append(dict(base, vars={"i0": {"c": "%(i1)s", "dg": 10}, "i1": {"dg": 11}}, sib_vars={"i1": 4242}))
+    return out
+
+
 def shard(ctx: Ctx):
+    for idx, case in enumerate(sibling_anchors()):
+        if idx % ctx.nshards != ctx.shard or ctx.stop:
+            continue
+        ctx.rec.evaluations += 1
+        try:
+            check_package(case, ctx)
+        except Violation as v:
+            if v.sig in ctx.excluded:
+                ctx.rec.excluded[v.sig] += 1
+                continue
+            v.case, v.sub = case, "package"
+            ctx.rec.violations.append(v.to_dict())
+            ctx.stop = True
+            return
     exhaustive_masks(ctx)
     explore(ctx, "concrete", G.layered_case(), check_concrete, ctx.n(8000, 200000), batch=1000)
     explore(ctx, "package", G.layered_case(for_package=True), check_package, ctx.n(400, 8000), batch=50)
